@@ -435,3 +435,13 @@ def expand_elem_terms(text: str) -> List[str]:
         else:
             work.extend(r)
     return sorted({ast.unparse(t).replace("_ELEM_", "<elem>") for t in done + work})
+
+
+def real_params(fi) -> List[str]:
+    """parameter names of a function without the receiver (`self` / `cls`); a method turned into a @staticmethod keeps its index"""
+    a = fi.node.args
+    ps = [x.arg for x in a.posonlyargs + a.args]
+    is_static = any(norm(d) == "staticmethod" for d in fi.node.decorator_list)
+    if getattr(fi, "cls", None) is not None and ps and ps[0] in ("self", "cls") and not is_static:
+        ps = ps[1:]
+    return ps
